@@ -35,7 +35,25 @@ def mk_el(cls, v):
     return cls(v[0]) if len(v) == 1 else cls(list(v))
 
 
-def to_lib(modkey, Pt, deg, rng=None, scale=None, inf_rep=None, classes=None):
+_FQ_FOR = {}
+
+
+def mk_el_fq_coeffs(cls, v):
+    """Extension-field element whose coefficients are FQ OBJECTS of the same prime (the constructors accept
+    Sequence[IntOrFQ]); prime-field elements are built from an FQ object too."""
+    import py_ecc.fields.field_elements as ref
+    import py_ecc.fields.optimized_field_elements as opt
+    base = opt.FQ if cls.__module__.startswith("py_ecc.fields.optimized") or issubclass(cls, (opt.FQ, opt.FQP)) else ref.FQ
+    key = (base, cls.field_modulus)
+    fq = _FQ_FOR.get(key)
+    if fq is None:
+        fq = _FQ_FOR[key] = type("CoeffFQ", (base,), {"field_modulus": cls.field_modulus})
+    if len(v) == 1:
+        return cls(cls(v[0]))
+    return cls([fq(c) for c in v])
+
+
+def to_lib(modkey, Pt, deg, rng=None, scale=None, inf_rep=None, classes=None, fq_coeffs=False):
     """Model affine point -> library point of module ``modkey`` over the degree-``deg`` field.
     optimized: optional projective rescaling (x*s, y*s, s); infinity in a chosen representative."""
     classes = classes or field_classes(modkey)
@@ -59,8 +77,13 @@ def to_lib(modkey, Pt, deg, rng=None, scale=None, inf_rep=None, classes=None):
         xs = tuple(rng.randrange(1, cls.field_modulus) for _ in range(k))
         ys = tuple(rng.randrange(1, cls.field_modulus) for _ in range(k))
         return (mk_el(cls, xs), mk_el(cls, ys), mk_el(cls, zero))
+    mk = mk_el_fq_coeffs if fq_coeffs else mk_el
     if scale is None:
-        return (mk_el(cls, Pt[0]), mk_el(cls, Pt[1]), mk_el(cls, one))
+        return (mk(cls, Pt[0]), mk(cls, Pt[1]), mk(cls, one))
+    if fq_coeffs:
+        Fm = (params.suite(cmon.MODULES[modkey][3]).F1 if k == 1 else params.suite(cmon.MODULES[modkey][3]).F2) if k in (1, 2) else None
+        if Fm is not None:
+            return (mk(cls, Fm.mul(Pt[0], scale)), mk(cls, Fm.mul(Pt[1], scale)), mk(cls, tuple(scale)))
     x, y, z = mk_el(cls, Pt[0]), mk_el(cls, Pt[1]), mk_el(cls, scale)
     return (x * z, y * z, z)
 
